@@ -523,7 +523,7 @@ class SymSp:
                 cells.append(raw[r, c2])
                 rows.append(r)
                 cols.append(c2)
-            fmt = self.format if self.format in ('csr', 'csc', 'bsr', 'dia') else 'csr'
+            fmt = self.format if self.format in ('csr', 'csc', 'bsr') else ('dia' if self.format == other.format == 'dia' else 'csr')
             return self._new(fmt, cells, rows, cols, shape=(n, m), dt=d.ldtype)
         if _np.isscalar(other) or isinstance(other, SVal):
             return self._mul_scalar(other)
